@@ -39,6 +39,11 @@ func genC05(seed uint64, tier string) *Case {
 		case x < 16:
 			c.Steps = append(c.Steps, Step{Op: "local", T: []string{"a", "b"}[g.Intn(2)], B: []byte{byte(g.Intn(2))}})
 		case x < 17:
+			if g.Bool(0.25) {
+				// a join with ignore-old that reaches nobody (address down): it must not
+				// leave the node ignoring anything afterwards
+				c.Steps = append(c.Steps, Step{Op: "joinfail"})
+			}
 			c.Steps = append(c.Steps, Step{Op: "joinignore", F: g.Bool(0.7)})
 		case x < 18:
 			c.Steps = append(c.Steps, Step{Op: "peerev", S: c05Times[4+g.Intn(5)], T: "a", B: []byte{byte(g.Intn(2))}})
@@ -225,6 +230,14 @@ func execC05(r *Run) {
 				c.Nodes[1].Del.NotifyMsg(wEnc(mtUserEvent, &wUserEvent{LTime: resolve(s), Name: s.T, Payload: s.B}))
 				c.Wait()
 			}
+		case "joinfail":
+			a := c.Go("joinfail", func() (int, error) { return c.Nodes[0].S.Join([]string{"nobody/10.0.0.77:7946"}, true) })
+			if !a.done {
+				c.Advance(11 * time.Second)
+			}
+			r.Fault("failed-ignore-old-join")
+			collect(s.String())
+			r.Logf("joinfail n=%d err=%v", a.n, a.err)
 		case "joinignore":
 			if !peer {
 				continue
